@@ -49,6 +49,13 @@ Theorem C09_concurrent_copies_one_answer :
                    (map (fun x => uplink_prog E D (fst (fst (fst x))) (snd (fst (fst x))) (snd (fst x)) (snd x)) copies) [] in
       (length (ds_inbox (fst res)) <= S (length (ds_inbox st)))%nat /\ (length (downs (snd res)) <= 1)%nat.
 Proof. exact concurrent_copies_recorded_and_answered_once. Qed.
+(* over a whole history of redeliveries of one frame (batches of concurrent copies, batch after batch): one answer at most *)
+Theorem C09_redeliveries_answered_once_in_any_history :
+  forall (E D : list N -> list N -> list N) apps c, (c < 65535)%N ->
+  forall bs st r, Forall (cbatch_ok c) bs -> ds_row st = Some r -> d_relaxed r = false -> fb_down st ->
+    (length (ds_inbox (fst (crun E D apps st bs))) <= S (length (ds_inbox st)))%nat /\
+    (length (downs (snd (crun E D apps st bs))) <= 1)%nat.
+Proof. exact copies_history. Qed.
 Theorem C09_two_copies_one_answer :
   forall (E D : list N -> list N -> list N) apps f1 rx1 n1 now1 f2 rx2 n2 now2,
     (fcnt f1 < 65535)%N -> fcnt f2 = fcnt f1 ->
@@ -86,3 +93,4 @@ Print Assumptions C09_concurrent_copies_one_answer.
 Print Assumptions C09_two_copies_one_answer.
 Print Assumptions C09_confirmed_uplink_is_acknowledged.
 Print Assumptions C09_sendable_in_every_history.
+Print Assumptions C09_redeliveries_answered_once_in_any_history.
